@@ -1,6 +1,6 @@
 (* Codec/Props.v — property C19: the theorems, nothing else.
    Each is closed by [exact <lemma>] and followed by Print Assumptions. *)
-From Verif Require Import Codec.Model Codec.ProofsBytes Codec.ProofsNum Codec.ProofsCmp.
+From Verif Require Import Codec.Model Codec.ProofsBytes Codec.ProofsNum Codec.ProofsCmp Codec.ProofsCmpOrder.
 Open Scope N_scope.
 
 (* --- byte strings --- *)
@@ -71,6 +71,25 @@ Print Assumptions C19_cmp_uvarint_roundtrip.
 Theorem C19_cmp_varint_roundtrip : forall v rest, int64_range v -> decode_cmp_varint (encode_cmp_varint v ++ rest) = VOk rest v.
 Proof. exact decode_encode_cmp_varint. Qed.
 Print Assumptions C19_cmp_varint_roundtrip.
+
+Theorem C19_cmp_uvarint_order : forall a b, a < two64 -> b < two64 -> lex_cmp (encode_cmp_uvarint a) (encode_cmp_uvarint b) = N.compare a b.
+Proof. exact encode_cmp_uvarint_order. Qed.
+Print Assumptions C19_cmp_uvarint_order.
+Theorem C19_cmp_varint_order : forall a b, int64_range a -> int64_range b -> lex_cmp (encode_cmp_varint a) (encode_cmp_varint b) = Z.compare a b.
+Proof. exact encode_cmp_varint_order. Qed.
+Print Assumptions C19_cmp_varint_order.
+Theorem C19_cmp_uvarint_prefix_free : forall a b rest, a < two64 -> b < two64 -> encode_cmp_uvarint b = encode_cmp_uvarint a ++ rest -> a = b /\ rest = [].
+Proof. exact encode_cmp_uvarint_prefix_free. Qed.
+Print Assumptions C19_cmp_uvarint_prefix_free.
+Theorem C19_cmp_varint_prefix_free : forall a b rest, int64_range a -> int64_range b -> encode_cmp_varint b = encode_cmp_varint a ++ rest -> a = b /\ rest = [].
+Proof. exact encode_cmp_varint_prefix_free. Qed.
+Print Assumptions C19_cmp_varint_prefix_free.
+Theorem C19_uvarint_prefix_free : forall a b rest, a < two64 -> b < two64 -> encode_uvarint b = encode_uvarint a ++ rest -> a = b /\ rest = [].
+Proof. exact encode_uvarint_prefix_free. Qed.
+Print Assumptions C19_uvarint_prefix_free.
+Theorem C19_varint_prefix_free : forall a b rest, int64_range a -> int64_range b -> encode_varint b = encode_varint a ++ rest -> a = b /\ rest = [].
+Proof. exact encode_varint_prefix_free. Qed.
+Print Assumptions C19_varint_prefix_free.
 
 (* the behaviour before the repair (leftover = whole input) is refuted: regression witness *)
 Theorem C19_cmp_varint_unfixed_refuted :
